@@ -31,6 +31,8 @@ CONSTANTS
   InitMaxCost,
   MaxCosts,        \* values UpdateMaxCost may set
   Costs,           \* costs a Set may carry (0 = "use Config.Cost")
+  KeyCost,         \* [Keys -> Nat]: the cost every Set of that key carries; 0 = any of Costs (workloads in which the
+                   \* cost is a function of the key: no overwrite ever changes a key's cost)
   CostFn,          \* value of Config.Cost(v) (0 = not configured)
   ItemSize,        \* internal per-item cost added by the applier (0 = IgnoreInternalCost)
   TTLs,            \* ttl values in ticks; 0 = no expiry
@@ -74,6 +76,7 @@ VARIABLES
   gets,                           \* number of Get calls since creation / last Clear
   dropped,                        \* number of new-key Sets refused because the buffer was full
   zeroVictim,                     \* the latest admission evicted a key whose accounted cost was 0 (coverage goals)
+  rejVict,                        \* some admission was turned away after it had evicted something (coverage goals)
   lowered,                        \* some overwrite lowered an accounted cost (coverage goals)
   swept0,                         \* hashes removed by the sweep while their accounted cost was 0 (coverage goals)
   lastUpd,                        \* expirations replaced by the latest in-place overwrite: [old, new] (coverage goals)
@@ -84,7 +87,7 @@ VARIABLES
 implVars == <<store, em, lastCleaned, pol, used, maxCost, door, cnt, buf, sendq, apc, areg, sweepQ,
               sweepNow, pc, creg, now, tickPending, running, stopq, closed, met>>
 histVars == <<nextVal, ops, exitCnt, evictCnt, rejectCnt, accepted, refused, valKey, delOblig,
-              waitCover, mustMiss, clearOwed, gets, dropped, zeroVictim, lowered, swept0, lastUpd, clrOverlap, raised, bad>>
+              waitCover, mustMiss, clearOwed, gets, dropped, zeroVictim, rejVict, lowered, swept0, lastUpd, clrOverlap, raised, bad>>
 vars == <<implVars, histVars>>
 
 ZeroMet == [hit |-> 0, miss |-> 0, keyAdd |-> 0, keyUpdate |-> 0, keyEvict |-> 0, costAdd |-> 0,
@@ -115,7 +118,7 @@ Init ==
   /\ exitCnt = [v \in Vals |-> 0] /\ evictCnt = [v \in Vals |-> 0] /\ rejectCnt = [v \in Vals |-> 0]
   /\ accepted = {} /\ refused = {} /\ valKey = [v \in Vals |-> 0]
   /\ delOblig = {} /\ waitCover = [c \in Clients |-> {}] /\ mustMiss = {}
-  /\ clearOwed = [c \in Clients |-> {}] /\ gets = 0 /\ dropped = 0 /\ zeroVictim = FALSE /\ lowered = FALSE /\ swept0 = {} /\ lastUpd = [old |-> 0, new |-> 0] /\ clrOverlap = FALSE /\ raised = FALSE /\ bad = {}
+  /\ clearOwed = [c \in Clients |-> {}] /\ gets = 0 /\ dropped = 0 /\ zeroVictim = FALSE /\ rejVict = FALSE /\ lowered = FALSE /\ swept0 = {} /\ lastUpd = [old |-> 0, new |-> 0] /\ clrOverlap = FALSE /\ raised = FALSE /\ bad = {}
 
 (* ------------------------------------------------------------------------------------------ *)
 (* helpers                                                                                      *)
@@ -149,6 +152,7 @@ Lookup(k) == LET e == store[HashOf[k]] IN
 (* Set / SetWithTTL                                                                             *)
 SetBegin(c, k, cost, ttl) ==      \* clock read, store.Update critical section, onExit(prev)
   /\ pc[c] = "idle" /\ CanCall /\ "set" \in Ops
+  /\ (IF KeyCost[k] = 0 THEN cost \in Costs ELSE cost = KeyCost[k])
   /\ LET v == nextVal
          h == HashOf[k]
          q == ConfOf[k]
@@ -172,7 +176,7 @@ SetBegin(c, k, cost, ttl) ==      \* clock read, store.Update critical section, 
   /\ clrOverlap' = (clrOverlap \/ InClear)
   /\ UNCHANGED <<lastCleaned, pol, used, maxCost, door, cnt, buf, sendq, apc, areg, sweepQ, sweepNow, now, 
                  tickPending, running, stopq, closed, met, evictCnt, rejectCnt, accepted, refused, 
-                 clearOwed, gets, dropped, zeroVictim, lowered, swept0, raised, bad>>
+                 clearOwed, gets, dropped, zeroVictim, rejVict, lowered, swept0, raised, bad>>
 
 SetSend(c) ==                     \* select { case c.setBuf <- i: ... default: ... }
   /\ pc[c] = "set_send"
@@ -189,7 +193,7 @@ SetSend(c) ==                     \* select { case c.setBuf <- i: ... default: .
   /\ UNCHANGED <<store, em, lastCleaned, pol, used, maxCost, door, cnt, sendq, apc, areg, sweepQ, 
                  sweepNow, creg, now, tickPending, running, stopq, closed, nextVal, ops, exitCnt, 
                  evictCnt, rejectCnt, valKey, delOblig, waitCover, mustMiss, clearOwed, gets, zeroVictim, 
-                 lowered, swept0, lastUpd, clrOverlap, raised, bad>>
+                 rejVict, lowered, swept0, lastUpd, clrOverlap, raised, bad>>
 
 (* ------------------------------------------------------------------------------------------ *)
 (* Del                                                                                          *)
@@ -209,7 +213,7 @@ DelBegin(c, k) ==                 \* store.Del critical section, onExit(prev)
   /\ UNCHANGED <<lastCleaned, pol, used, maxCost, door, cnt, buf, sendq, apc, areg, sweepQ, sweepNow, now, 
                  tickPending, running, stopq, closed, met, nextVal, evictCnt, rejectCnt, accepted, 
                  refused, valKey, delOblig, waitCover, mustMiss, clearOwed, gets, dropped, zeroVictim, 
-                 lowered, swept0, lastUpd, raised, bad>>
+                 rejVict, lowered, swept0, lastUpd, raised, bad>>
 
 \* history bookkeeping at the return of Del(k) by client c (a Set of k in flight is concurrent with
 \* the Del and therefore not "earlier")
@@ -229,7 +233,7 @@ DelSend(c) ==                     \* c.setBuf <- tombstone  (blocking send)
   /\ UNCHANGED <<store, em, lastCleaned, pol, used, maxCost, door, cnt, apc, areg, sweepQ, sweepNow, creg, 
                  now, tickPending, running, stopq, closed, met, nextVal, ops, exitCnt, evictCnt, 
                  rejectCnt, accepted, refused, valKey, waitCover, mustMiss, clearOwed, gets, dropped, 
-                 zeroVictim, lowered, swept0, lastUpd, clrOverlap, raised, bad>>
+                 zeroVictim, rejVict, lowered, swept0, lastUpd, clrOverlap, raised, bad>>
 
 (* ------------------------------------------------------------------------------------------ *)
 (* Wait                                                                                         *)
@@ -246,7 +250,7 @@ WaitCall(c) ==                    \* c.setBuf <- marker (blocking), then <-wait
   /\ UNCHANGED <<store, em, lastCleaned, pol, used, maxCost, door, cnt, apc, areg, sweepQ, sweepNow, now, 
                  tickPending, running, stopq, closed, met, nextVal, exitCnt, evictCnt, rejectCnt, 
                  accepted, refused, valKey, delOblig, mustMiss, clearOwed, gets, dropped, zeroVictim, 
-                 lowered, swept0, lastUpd, raised, bad>>
+                 rejVict, lowered, swept0, lastUpd, raised, bad>>
 
 (* A receive from setBuf (by the applier or by Clear's drain loop) removes the head and, as Go's
    channel does, moves the item of the first blocked sender into the buffer in the same step.
@@ -278,7 +282,7 @@ Get(c, k) ==                      \* getBuf.Push (frequency), store.get, hit/mis
   /\ UNCHANGED <<store, em, lastCleaned, pol, used, maxCost, buf, sendq, apc, areg, sweepQ, sweepNow, pc, 
                  creg, now, tickPending, running, stopq, closed, nextVal, exitCnt, evictCnt, rejectCnt, 
                  accepted, refused, valKey, delOblig, waitCover, mustMiss, clearOwed, dropped, zeroVictim, 
-                 lowered, swept0, lastUpd, raised>>
+                 rejVict, lowered, swept0, lastUpd, raised>>
 
 GetTTL(c, k) ==                   \* store.Get, store.Expiration, clock (no hook between the reads:
   /\ pc[c] = "idle" /\ ops < MaxOps /\ ~Closing /\ "gettl" \in Ops  \* one step at the grain of the gates)
@@ -286,7 +290,7 @@ GetTTL(c, k) ==                   \* store.Get, store.Expiration, clock (no hook
   /\ UNCHANGED <<store, em, lastCleaned, pol, used, maxCost, door, cnt, buf, sendq, apc, areg, sweepQ, 
                  sweepNow, pc, creg, now, tickPending, running, stopq, closed, met, nextVal, exitCnt, 
                  evictCnt, rejectCnt, accepted, refused, valKey, delOblig, waitCover, mustMiss, clearOwed, 
-                 gets, dropped, zeroVictim, lowered, swept0, lastUpd, clrOverlap, raised, bad>>
+                 gets, dropped, zeroVictim, rejVict, lowered, swept0, lastUpd, clrOverlap, raised, bad>>
 
 Iter(c) ==                        \* IterValues (read only; one step in the model)
   /\ pc[c] = "idle" /\ CanCall /\ "iter" \in Ops
@@ -294,7 +298,7 @@ Iter(c) ==                        \* IterValues (read only; one step in the mode
   /\ UNCHANGED <<store, em, lastCleaned, pol, used, maxCost, door, cnt, buf, sendq, apc, areg, sweepQ, 
                  sweepNow, pc, creg, now, tickPending, running, stopq, closed, met, nextVal, exitCnt, 
                  evictCnt, rejectCnt, accepted, refused, valKey, delOblig, waitCover, mustMiss, clearOwed, 
-                 gets, dropped, zeroVictim, lowered, swept0, lastUpd, clrOverlap, raised, bad>>
+                 gets, dropped, zeroVictim, rejVict, lowered, swept0, lastUpd, clrOverlap, raised, bad>>
 
 SetMaxCost(c, m) ==
   /\ pc[c] = "idle" /\ ops < MaxOps /\ ~Closing /\ "maxcost" \in Ops
@@ -303,7 +307,7 @@ SetMaxCost(c, m) ==
   /\ UNCHANGED <<store, em, lastCleaned, pol, used, door, cnt, buf, sendq, apc, areg, sweepQ, sweepNow, 
                  pc, creg, now, tickPending, running, stopq, closed, met, nextVal, exitCnt, evictCnt, 
                  rejectCnt, accepted, refused, valKey, delOblig, waitCover, mustMiss, clearOwed, gets, 
-                 dropped, zeroVictim, lowered, swept0, lastUpd, clrOverlap, bad>>
+                 dropped, zeroVictim, rejVict, lowered, swept0, lastUpd, clrOverlap, bad>>
 
 (* ------------------------------------------------------------------------------------------ *)
 (* applier: policy.Add                                                                          *)
@@ -357,7 +361,7 @@ AppDequeue ==      \* receive from setBuf, evaluate cost, policy critical sectio
      /\ CASE it.t = "wait" ->
                /\ pc' = [PcAfterRecv(pc) EXCEPT ![it.c] = "idle"]       \* close(marker): Wait returns
                /\ mustMiss' = mustMiss \cup (waitCover[it.c] \cap delOblig)
-               /\ UNCHANGED <<pol, used, met, apc, areg, bad, raised, lowered, zeroVictim>>
+               /\ UNCHANGED <<pol, used, met, apc, areg, bad, raised, lowered, zeroVictim, rejVict>>
           [] it.t = "new" ->
                \E r \in PolicyAdd(it) :
                  /\ pol' = r.pol /\ used' = r.used /\ met' = r.met
@@ -367,6 +371,7 @@ AppDequeue ==      \* receive from setBuf, evaluate cost, policy critical sectio
                  /\ raised' = (raised \/ (pol[it.h] # NoCost /\ it.cost > pol[it.h]))
                  /\ lowered' = (lowered \/ (pol[it.h] # NoCost /\ it.cost < pol[it.h]))
                  /\ zeroVictim' = (\E i \in DOMAIN r.victims : pol[r.victims[i]] = 0)
+                 /\ rejVict' = (rejVict \/ (~r.added /\ r.victims # <<>>))
                  /\ bad' = bad \cup Flag(r.added /\ r.used > maxCost, "C03 admission pushed used above MaxCost")
                                \cup Flag(r.added /\ it.cost > maxCost, "C03 admitted an item larger than MaxCost")
                                \cup Flag(maxCost - (used + it.cost) >= 0 /\ pol[it.h] = NoCost /\ it.cost <= maxCost
@@ -382,7 +387,7 @@ AppDequeue ==      \* receive from setBuf, evaluate cost, policy critical sectio
                          /\ lowered' = (lowered \/ it.cost < pol[it.h])
                     ELSE UNCHANGED <<pol, used, met, raised, lowered>>
                /\ pc' = PcAfterRecv(pc)
-               /\ UNCHANGED <<apc, areg, mustMiss, bad, zeroVictim>>
+               /\ UNCHANGED <<apc, areg, mustMiss, bad, zeroVictim, rejVict>>
           [] it.t = "del" ->
                /\ IF pol[it.h] # NoCost
                     THEN /\ pol' = [pol EXCEPT ![it.h] = NoCost] /\ used' = used - pol[it.h]
@@ -391,7 +396,7 @@ AppDequeue ==      \* receive from setBuf, evaluate cost, policy critical sectio
                /\ areg' = [item |-> it, victims |-> <<>>]
                /\ apc' = "del_store"
                /\ pc' = PcAfterRecv(pc)
-               /\ UNCHANGED <<mustMiss, bad, raised, lowered, zeroVictim>>
+               /\ UNCHANGED <<mustMiss, bad, raised, lowered, zeroVictim, rejVict>>
   /\ UNCHANGED <<store, em, lastCleaned, maxCost, door, cnt, sweepQ, sweepNow, creg, now, tickPending, 
                  running, stopq, closed, nextVal, ops, exitCnt, evictCnt, rejectCnt, accepted, refused, 
                  valKey, waitCover, clearOwed, gets, dropped, swept0, lastUpd, clrOverlap>>
@@ -410,7 +415,7 @@ AppStoreSet ==     \* lockedMap.Set under the shard lock, keyAdd metric
   /\ UNCHANGED <<lastCleaned, pol, used, maxCost, door, cnt, buf, sendq, areg, sweepQ, sweepNow, pc, creg, 
                  now, tickPending, running, stopq, closed, nextVal, ops, exitCnt, evictCnt, rejectCnt, 
                  accepted, refused, valKey, delOblig, waitCover, mustMiss, clearOwed, gets, dropped, 
-                 zeroVictim, lowered, swept0, lastUpd, clrOverlap, raised, bad>>
+                 zeroVictim, rejVict, lowered, swept0, lastUpd, clrOverlap, raised, bad>>
 
 AppReject ==       \* onReject(i) -> OnReject, OnExit
   /\ apc = "new_rej"
@@ -420,7 +425,7 @@ AppReject ==       \* onReject(i) -> OnReject, OnExit
   /\ UNCHANGED <<store, em, lastCleaned, pol, used, maxCost, door, cnt, buf, sendq, areg, sweepQ, 
                  sweepNow, pc, creg, now, tickPending, running, stopq, closed, met, nextVal, ops, 
                  evictCnt, accepted, refused, valKey, delOblig, waitCover, mustMiss, clearOwed, gets, 
-                 dropped, zeroVictim, lowered, swept0, lastUpd, clrOverlap, raised, bad>>
+                 dropped, zeroVictim, rejVict, lowered, swept0, lastUpd, clrOverlap, raised, bad>>
 
 AppVictim ==       \* store.Del(victim, 0) + onEvict
   /\ apc = "victims"
@@ -433,8 +438,8 @@ AppVictim ==       \* store.Del(victim, 0) + onEvict
      /\ apc' = IF Tail(areg.victims) = <<>> THEN "idle" ELSE "victims"
   /\ UNCHANGED <<lastCleaned, pol, used, maxCost, door, cnt, buf, sendq, sweepQ, sweepNow, pc, creg, now, 
                  tickPending, running, stopq, closed, met, nextVal, ops, rejectCnt, accepted, refused, 
-                 valKey, delOblig, waitCover, mustMiss, clearOwed, gets, dropped, zeroVictim, lowered, 
-                 swept0, lastUpd, clrOverlap, raised, bad>>
+                 valKey, delOblig, waitCover, mustMiss, clearOwed, gets, dropped, zeroVictim, rejVict, 
+                 lowered, swept0, lastUpd, clrOverlap, raised, bad>>
 
 AppDelStore ==     \* store.Del(key, conflict) + onExit of a tombstone
   /\ apc = "del_store"
@@ -448,7 +453,7 @@ AppDelStore ==     \* store.Del(key, conflict) + onExit of a tombstone
   /\ UNCHANGED <<lastCleaned, pol, used, maxCost, door, cnt, buf, sendq, areg, sweepQ, sweepNow, pc, creg, 
                  now, tickPending, running, stopq, closed, met, nextVal, ops, evictCnt, rejectCnt, 
                  accepted, refused, valKey, delOblig, waitCover, mustMiss, clearOwed, gets, dropped, 
-                 zeroVictim, lowered, swept0, lastUpd, clrOverlap, raised, bad>>
+                 zeroVictim, rejVict, lowered, swept0, lastUpd, clrOverlap, raised, bad>>
 
 (* ------------------------------------------------------------------------------------------ *)
 (* expiry sweep (ticker arm of the applier's select; expirationMap.cleanup)                      *)
@@ -465,8 +470,8 @@ SweepGrab ==       \* under the em lock: take whole buckets, advance the frontie
      /\ apc' = IF grabbed = {} THEN "idle" ELSE "sweep_check"
   /\ UNCHANGED <<store, pol, used, maxCost, door, cnt, buf, sendq, areg, pc, creg, now, running, stopq, 
                  closed, met, nextVal, ops, exitCnt, evictCnt, rejectCnt, accepted, refused, valKey, 
-                 delOblig, waitCover, mustMiss, clearOwed, gets, dropped, zeroVictim, lowered, swept0, 
-                 lastUpd, clrOverlap, raised, bad>>
+                 delOblig, waitCover, mustMiss, clearOwed, gets, dropped, zeroVictim, rejVict, lowered, 
+                 swept0, lastUpd, clrOverlap, raised, bad>>
 
 SweepCheck(x) ==   \* code as it was: store.Expiration under RLock, `expr.After(now)` => skip.
                    \* FixAtomic (repair of F4): store.DelExpired - check and delete under one shard lock
@@ -491,7 +496,7 @@ SweepCheck(x) ==   \* code as it was: store.Expiration under RLock, `expr.After(
   /\ UNCHANGED <<lastCleaned, pol, used, maxCost, door, cnt, buf, sendq, sweepNow, pc, creg, now, 
                  tickPending, running, stopq, closed, met, nextVal, ops, exitCnt, evictCnt, rejectCnt, 
                  accepted, refused, valKey, delOblig, waitCover, mustMiss, clearOwed, gets, dropped, 
-                 zeroVictim, lowered, swept0, lastUpd, clrOverlap, raised, bad>>
+                 zeroVictim, rejVict, lowered, swept0, lastUpd, clrOverlap, raised, bad>>
 
 SweepPolDel ==     \* policy.Cost + policy.Del
   /\ apc = "sweep_poldel"
@@ -505,7 +510,7 @@ SweepPolDel ==     \* policy.Cost + policy.Del
   /\ UNCHANGED <<store, em, lastCleaned, maxCost, door, cnt, buf, sendq, areg, sweepQ, sweepNow, pc, creg, 
                  now, tickPending, running, stopq, closed, nextVal, ops, exitCnt, evictCnt, rejectCnt, 
                  accepted, refused, valKey, delOblig, waitCover, mustMiss, clearOwed, gets, dropped, 
-                 zeroVictim, lowered, lastUpd, clrOverlap, raised, bad>>
+                 zeroVictim, rejVict, lowered, lastUpd, clrOverlap, raised, bad>>
 
 SweepStoreDel ==   \* code as it was: store.Del(key, conflict) + onEvict.  FixAtomic: only onEvict is left
   /\ apc = "sweep_storedel"
@@ -524,7 +529,7 @@ SweepStoreDel ==   \* code as it was: store.Del(key, conflict) + onEvict.  FixAt
   /\ UNCHANGED <<lastCleaned, pol, used, maxCost, door, cnt, buf, sendq, areg, sweepQ, sweepNow, pc, creg, 
                  now, tickPending, running, stopq, closed, met, nextVal, ops, rejectCnt, accepted, 
                  refused, valKey, delOblig, waitCover, mustMiss, clearOwed, gets, dropped, zeroVictim, 
-                 lowered, swept0, lastUpd, clrOverlap, raised>>
+                 rejVict, lowered, swept0, lastUpd, clrOverlap, raised>>
 
 Tick ==            \* the clock advances by one tick; the ticker fires (channel of capacity 1)
   /\ now < MaxTime
@@ -532,7 +537,7 @@ Tick ==            \* the clock advances by one tick; the ticker fires (channel 
   /\ UNCHANGED <<store, em, lastCleaned, pol, used, maxCost, door, cnt, buf, sendq, apc, areg, sweepQ, 
                  sweepNow, pc, creg, running, stopq, closed, met, nextVal, ops, exitCnt, evictCnt, 
                  rejectCnt, accepted, refused, valKey, delOblig, waitCover, mustMiss, clearOwed, gets, 
-                 dropped, zeroVictim, lowered, swept0, lastUpd, clrOverlap, raised, bad>>
+                 dropped, zeroVictim, rejVict, lowered, swept0, lastUpd, clrOverlap, raised, bad>>
 
 (* ------------------------------------------------------------------------------------------ *)
 (* Clear / Close                                                                                *)
@@ -548,7 +553,7 @@ ClearCall(c, kind) ==   \* the call begins; the client blocks in `c.stop <- stru
   /\ UNCHANGED <<store, em, lastCleaned, pol, used, maxCost, door, cnt, buf, sendq, apc, areg, sweepQ, 
                  sweepNow, now, tickPending, running, closed, met, nextVal, exitCnt, evictCnt, rejectCnt, 
                  accepted, refused, valKey, delOblig, waitCover, mustMiss, gets, dropped, zeroVictim, 
-                 lowered, swept0, lastUpd, raised, bad>>
+                 rejVict, lowered, swept0, lastUpd, raised, bad>>
 
 ClearStop(c) ==         \* the applier takes the stop arm, signals done and exits
   /\ pc[c] = "clr_stop" /\ running /\ apc = "idle" /\ stopq # <<>> /\ Head(stopq) = c
@@ -557,7 +562,7 @@ ClearStop(c) ==         \* the applier takes the stop arm, signals done and exit
   /\ UNCHANGED <<store, em, lastCleaned, pol, used, maxCost, door, cnt, buf, sendq, apc, areg, sweepQ, 
                  sweepNow, creg, now, tickPending, closed, met, nextVal, ops, exitCnt, evictCnt, 
                  rejectCnt, accepted, refused, valKey, delOblig, waitCover, mustMiss, clearOwed, gets, 
-                 dropped, zeroVictim, lowered, swept0, lastUpd, clrOverlap, raised, bad>>
+                 dropped, zeroVictim, rejVict, lowered, swept0, lastUpd, clrOverlap, raised, bad>>
 
 \* everything Clear's drain loop receives: the buffer, then the items of the blocked senders
 DrainItems == buf \o [i \in 1..Len(sendq) |-> creg[sendq[i]]]
@@ -581,8 +586,8 @@ ClearDrain(c) ==        \* the drain loop: markers closed, non-update items pass
         \* discarded, not applied, and the map is wiped only later in the same Clear
   /\ UNCHANGED <<store, em, lastCleaned, pol, used, maxCost, door, cnt, apc, areg, sweepQ, sweepNow, creg, 
                  now, tickPending, running, stopq, closed, met, nextVal, ops, rejectCnt, accepted, 
-                 refused, valKey, waitCover, mustMiss, clearOwed, gets, dropped, zeroVictim, lowered, 
-                 swept0, lastUpd, clrOverlap, raised, bad>>
+                 refused, valKey, waitCover, mustMiss, clearOwed, gets, dropped, zeroVictim, rejVict, 
+                 lowered, swept0, lastUpd, clrOverlap, raised, bad>>
 
 ClearPolicy(c) ==       \* policy.Clear under the policy lock
   /\ pc[c] = "clr_policy"
@@ -592,7 +597,7 @@ ClearPolicy(c) ==       \* policy.Clear under the policy lock
   /\ UNCHANGED <<store, em, lastCleaned, maxCost, buf, sendq, apc, areg, sweepQ, sweepNow, creg, now, 
                  tickPending, running, stopq, closed, met, nextVal, ops, exitCnt, evictCnt, rejectCnt, 
                  accepted, refused, valKey, delOblig, waitCover, mustMiss, clearOwed, gets, dropped, 
-                 zeroVictim, lowered, swept0, lastUpd, clrOverlap, raised, bad>>
+                 zeroVictim, rejVict, lowered, swept0, lastUpd, clrOverlap, raised, bad>>
 
 ClearStore(c) ==        \* store.Clear(onEvict) for every shard, expiryMap.clear
   /\ pc[c] = "clr_store"
@@ -604,8 +609,8 @@ ClearStore(c) ==        \* store.Clear(onEvict) for every shard, expiryMap.clear
   /\ pc' = [pc EXCEPT ![c] = "clr_fin"]
   /\ UNCHANGED <<pol, used, maxCost, door, cnt, buf, sendq, apc, areg, sweepQ, sweepNow, creg, now, 
                  tickPending, running, stopq, closed, met, nextVal, ops, rejectCnt, accepted, refused, 
-                 valKey, delOblig, waitCover, mustMiss, clearOwed, gets, dropped, zeroVictim, lowered, 
-                 swept0, lastUpd, clrOverlap, raised, bad>>
+                 valKey, delOblig, waitCover, mustMiss, clearOwed, gets, dropped, zeroVictim, rejVict, 
+                 lowered, swept0, lastUpd, clrOverlap, raised, bad>>
 
 ClearRestart(c) ==      \* Metrics.Clear, go processItems(); Clear returns
   /\ pc[c] = "clr_fin"
@@ -622,7 +627,7 @@ ClearRestart(c) ==      \* Metrics.Clear, go processItems(); Clear returns
   /\ UNCHANGED <<store, em, lastCleaned, pol, used, maxCost, door, cnt, buf, sendq, apc, areg, sweepQ, 
                  sweepNow, creg, now, tickPending, stopq, closed, nextVal, ops, exitCnt, evictCnt, 
                  rejectCnt, accepted, refused, valKey, delOblig, waitCover, mustMiss, clearOwed, 
-                 zeroVictim, lowered, swept0, lastUpd, clrOverlap, raised>>
+                 zeroVictim, rejVict, lowered, swept0, lastUpd, clrOverlap, raised>>
 
 CloseFinish(c) ==       \* second stop/done rendezvous, channels closed, policy goroutine stopped
   /\ pc[c] = "cls_stop" /\ running /\ apc = "idle"
@@ -631,7 +636,7 @@ CloseFinish(c) ==       \* second stop/done rendezvous, channels closed, policy 
   /\ UNCHANGED <<store, em, lastCleaned, pol, used, maxCost, door, cnt, buf, sendq, apc, areg, sweepQ, 
                  sweepNow, creg, now, tickPending, stopq, met, nextVal, ops, exitCnt, evictCnt, rejectCnt, 
                  accepted, refused, valKey, delOblig, waitCover, mustMiss, clearOwed, gets, dropped, 
-                 zeroVictim, lowered, swept0, lastUpd, clrOverlap, raised, bad>>
+                 zeroVictim, rejVict, lowered, swept0, lastUpd, clrOverlap, raised, bad>>
 
 ClosedOp(c, op) ==      \* any call on a closed cache is a no-op
   /\ closed /\ pc[c] = "idle" /\ ops < MaxOps
@@ -640,11 +645,11 @@ ClosedOp(c, op) ==      \* any call on a closed cache is a no-op
   /\ UNCHANGED <<store, em, lastCleaned, pol, used, maxCost, door, cnt, buf, sendq, apc, areg, sweepQ, 
                  sweepNow, pc, creg, now, tickPending, running, stopq, closed, met, nextVal, exitCnt, 
                  evictCnt, rejectCnt, accepted, refused, valKey, delOblig, waitCover, mustMiss, clearOwed, 
-                 gets, dropped, zeroVictim, lowered, swept0, lastUpd, clrOverlap, raised, bad>>
+                 gets, dropped, zeroVictim, rejVict, lowered, swept0, lastUpd, clrOverlap, raised, bad>>
 
 (* ------------------------------------------------------------------------------------------ *)
 Next ==
-  \/ \E c \in Clients, k \in Keys, cost \in Costs, ttl \in TTLs : SetBegin(c, k, cost, ttl)
+  \/ \E c \in Clients, k \in Keys, cost \in Costs \cup {KeyCost[kk] : kk \in Keys}, ttl \in TTLs : SetBegin(c, k, cost, ttl)
   \/ \E c \in Clients : SetSend(c) \/ DelSend(c) \/ WaitCall(c) \/ Iter(c)
   \/ \E c \in Clients, k \in Keys : DelBegin(c, k) \/ Get(c, k) \/ GetTTL(c, k)
   \/ \E c \in Clients, m \in MaxCosts : SetMaxCost(c, m)
